@@ -24,7 +24,8 @@ type loaded struct {
 // /repo/internal/zzvf/vf.go.  /repo itself is never written.
 func harnessOverlay() map[string]string {
 	ov := map[string]string{
-		filepath.Join(repoDir, "internal/zzvf/vf.go"): filepath.Join(verifDir, "vf/vf.go"),
+		filepath.Join(repoDir, "internal/zzvf/vf.go"):     filepath.Join(verifDir, "vf/vf.go"),
+		filepath.Join(repoDir, "internal/zzgate/gate.go"): filepath.Join(verifDir, "vf/zzgate/gate.go"),
 	}
 	root := filepath.Join(verifDir, "harness")
 	filepath.Walk(root, func(p string, info os.FileInfo, err error) error {
